@@ -278,6 +278,17 @@ def run(ctx, deep=False):
                 ctx.case((gen, ci, target, ident, method, tuple(args)))
                 ctx.count("%d:%s.%s:%s" % (gen, target, method, "sent" if sent else (res[0] if res else "nothing")))
                 if not sent:
+                    # a command that is certainly admissible (the zone's status carries the sensor flag and the value is inside what
+                    # every documented set-point field expresses; a damper percentage 0..100; zone on / off) and was refused: nothing on
+                    # the wire means nothing like what the vendor protocol says for it
+                    zd = inst["zones"].get(ident, {}) if target == "zone" else {}
+                    sure = target == "zone" and ((method == "set_target_temperature" and zd.get("sensor") and 16.0 <= float(args[0]) <= 30.0)
+                                                 or (method == "set_damper_percentage" and 0 <= int(args[0]) <= 100)
+                                                 or (method == "set_power" and args[0] in ("ON", "OFF")))
+                    if sure:
+                        ctx.violation("C04:%d:zone.%s:nothing-sent" % (gen, method), "AirTouch %d zone %d %s(%s): an admissible command (zone status: %s) transmitted nothing (%s)" % (
+                            gen, ident, method, ", ".join(args), zd, res[0] if res else "no result"), kind="input",
+                            call=[gen, ci, target, ident, method, args], implementation_output=res[0] if res else "", spec_verdict="one control frame")
                     continue
                 if len(sent) != 1:
                     ctx.violation("C04:%d:frames-per-call" % gen, "AirTouch %d %s.%s%s transmitted %d frames" % (gen, target, method, args, len(sent)), kind="input",
